@@ -1,11 +1,14 @@
 import MiniconfVerif.Props.C08
-import MiniconfVerif.Model.Transcode
+import MiniconfVerif.Lemmas.PackedPath
 
-/-! # C09 — packed node keys are unique, ordered like iteration, bounded by max_bits
-(first instalment: the per-level field; the path-level theorems `dec_enc`, `enc_order`
-are being added on top of C08's sequence theorem, see DESIGN.md §7 C09) -/
+/-! # C09 — packed node keys are unique, decode to their node, bounded by max_bits
+
+Model: the `Transcode for Packed` callback and `Keys for Packed` (`Model/Transcode.lean`,
+`Model/Keys.lean`) over the single-word functions regenerated from packed.rs; the path-level
+statements are built on C08's `pushAll`/`popAll` theorems (Lemmas/PackedPath.lean).
+The order statement (numeric order = iteration order) is checked by the runs only. -/
 namespace MiniconfVerif.C09
-open MiniconfVerif MiniconfVerif.Gen.Packed MiniconfVerif.PackedWord
+open MiniconfVerif MiniconfVerif.Gen.Packed MiniconfVerif.PackedWord MiniconfVerif.Packed
 
 /-- One level: pushing an index among `len` siblings with the width the code uses and
 popping that width again returns the index and the previous key (so distinct indices
@@ -40,5 +43,143 @@ theorem level_roundtrip (l c len idx : BitVec 64) (h : Valid l c) (hl : len ≠ 
   have z4 : (((c &&& (((1 : BitVec 64) <<< (0 : BitVec 64)) - 1)) <<< b) ||| idx) &&& (((1 : BitVec 64) <<< ((0 : BitVec 64) + b - b)) - 1) = 0 := by
     rw [z2]; bv_decide
   rw [z1, z3, z4, z2, ← empty_repr]
+
+/-- the node kind the lookup reports for the node at the end of a path -/
+def kindAt (t : Schema) (d : Nat) : NodeRes := if t.isLeaf then .leaf d else .internal d
+
+/-- the packed key of the node at index path `p` -/
+def packOf (s : Schema) (p : List Nat) : Option (BitVec 64) := pushAll EMPTY (packFields s p)
+
+/-- **Encoding**: for every node (leaf or internal) whose bit weight fits the word, transcoding
+its index key into a `Packed` succeeds, without reaching a panic site; the key is the fields
+of the path pushed in order and uses exactly the path's bit weight. -/
+theorem encode (s t : Schema) (hwf : s.WF) (hsm : s.Small) (p : List Nat) (ht : s.at? p = some t)
+    (hfit : pathW Wbits s p ≤ 63) :
+    ∃ w, packOf s p = some w ∧
+      s.transcode (.list (intKeys p)) (.packed EMPTY) = (kindAt t p.length, .packed w) ∧
+      (len w).toNat = pathW Wbits s p := by
+  have hV0 : Valid 0 0 := by constructor <;> decide
+  have htb := totalBits_eq_pathW p s t hwf ht
+  obtain ⟨w, hw1, hw2, hok⟩ := cbAlong_packed p s t 0 0 hwf hsm ht hV0 (by rw [htb]; simpa using hfit)
+  rw [← empty_repr] at hw1 hw2
+  obtain ⟨w2, hw3, _, hlen⟩ := pushAll_popAll (packFields s p) 0 0 [] [] hV0 hok (by rw [htb]; simpa using hfit)
+    (by rw [← empty_repr]; rfl)
+  rw [← empty_repr, hw1] at hw3
+  cases hw3
+  refine ⟨w, hw1, ?_, by rw [hlen, htb]; simp⟩
+  have hsrc : KeySrc.list (intKeys p) = idxSrc true p := by simp [idxSrc]
+  simp only [Schema.transcode, hsrc, traverse_eq_idxWalk Target.cbP true _ s _ hwf hsm]
+  have := idxWalk_prefix Target.cbP true p s t [] (.packed EMPTY, false) (.packed w, false) ht hw2
+  rw [List.append_nil] at this
+  rw [this]
+  unfold idxWalk
+  cases hl : t.isLeaf <;> simp [incrN_ok, incrN_tooShort, Res.toNode, kindAt, hl]
+
+/-- **Decoding**: the packed key of a node, used as a key, walks to exactly that node: the
+lookup reports its kind and depth and hands the callbacks exactly its indices. -/
+theorem decode (s t : Schema) (hwf : s.WF) (hsm : s.Small) (p : List Nat) (ht : s.at? p = some t)
+    (hmax : s.meta.maxBits ≤ 63) (w : BitVec 64) (hw : packOf s p = some w)
+    (cap m : Nat) (hcap : s.maxDepth ≤ cap) (har : ∀ q u, s.at? q = some u → u.arity ≤ m + 1) :
+    s.transcode (.packed w) (.idx [] cap m) = (kindAt t p.length, .idx p cap m) := by
+  have hV0 : Valid 0 0 := by constructor <;> decide
+  have htb := totalBits_eq_pathW p s t hwf ht
+  have hfit : pathW Wbits s p ≤ 63 := Nat.le_trans (node_bits_le_max s t hwf p ht) hmax
+  obtain ⟨w', hw1, _, hok⟩ := cbAlong_packed p s t 0 0 hwf hsm ht hV0 (by rw [htb]; simpa using hfit)
+  obtain ⟨w2, hw3, hpop, _⟩ := pushAll_popAll (packFields s p) 0 0 [] [] hV0 hok (by rw [htb]; simpa using hfit)
+    (by rw [← empty_repr]; rfl)
+  rw [← empty_repr] at hw3
+  simp only [packOf] at hw
+  rw [hw] at hw3
+  cases hw3
+  simp only [List.nil_append] at hpop
+  have hdep := at?_depth p s t ht
+  have hidx := cbAlong_idx cap m p s t [] ht (by simp; omega) har
+  have htr := traverse_packed Target.cbP p s t w (.idx [] cap m, false) _ hwf hsm ht hpop hok hidx
+  -- the end of the walk: the key is used up
+  have hend := traverse_packed_empty Target.cbP t (Target.idx ([] ++ p) cap m, false) (by
+    intro hnl
+    -- the width of `t`'s own level is part of some leaf's weight
+    obtain ⟨c0, hc0⟩ : ∃ c0, t.kids[0]? = some c0 := by
+      have := wf_arity_pos t (wf_at? s t p hwf ht) (by intro e; subst e; simp [Schema.isLeaf] at hnl)
+      unfold Schema.arity at this
+      exact ⟨t.kids[0], by simp [this]⟩
+    have hc0at := at?_snoc s p 0 t c0 ht hc0
+    have hle := node_bits_le_max s c0 hwf (p ++ [0]) hc0at
+    rw [pathW_append Wbits p s t [0] ht] at hle
+    have hw0 : pathW Wbits t [0] = widthFor t.lookup.len := by
+      cases t with
+      | leaf => simp [Schema.isLeaf] at hnl
+      | node lk cs => simp [pathW, Schema.levelW, Wbits, Schema.lookup, hc0]
+      | array n c => simp [pathW, Schema.levelW, Wbits, Schema.lookup, hc0, Lookup.len]
+    rw [hw0] at hle
+    rw [BitVec.le_def]
+    simp only [widthFor] at hle
+    have h63 : (63 : BitVec 64).toNat = 63 := rfl
+    rw [h63]; omega)
+  simp only [Schema.transcode, htr, hend]
+  cases hl : t.isLeaf <;> simp [incrN_ok, incrN_tooShort, Res.toNode, kindAt, hl]
+
+/-- **Distinct nodes have distinct packed keys.** -/
+theorem unique (s t t' : Schema) (hwf : s.WF) (hsm : s.Small) (hmax : s.meta.maxBits ≤ 63)
+    (p p' : List Nat) (ht : s.at? p = some t) (ht' : s.at? p' = some t') (w : BitVec 64)
+    (hw : packOf s p = some w) (hw' : packOf s p' = some w) : p = p' := by
+  have har : ∀ q u, s.at? q = some u → u.arity ≤ (2 ^ 64 - 1) + 1 := fun q u h => by
+    have := hsm q u h; omega
+  have h1 := decode s t hwf hsm p ht hmax w hw s.maxDepth (2 ^ 64 - 1) (Nat.le_refl _) har
+  have h2 := decode s t' hwf hsm p' ht' hmax w hw' s.maxDepth (2 ^ 64 - 1) (Nat.le_refl _) har
+  rw [h1] at h2
+  simp only [Prod.mk.injEq, Target.idx.injEq] at h2
+  exact h2.2.1
+
+/-- **No key uses more bits than the metadata's maximum bit width** (and the bound is exact:
+some leaf's key uses exactly that many). -/
+theorem bounded (s : Schema) (hwf : s.WF) :
+    (∀ p t, s.at? p = some t → pathW Wbits s p ≤ s.meta.maxBits) ∧
+    (∃ p ∈ s.leaves, pathW Wbits s p = s.meta.maxBits) := by
+  refine ⟨fun p t ht => node_bits_le_max s t hwf p ht, ?_⟩
+  rw [meta_bits]
+  exact pathW_attained Wbits s.maxDepth s (Nat.le_refl _) hwf
+
+/-- two types agree on the field width at every node of `s` that also exists in `s'`
+(e.g. `s'` is `s` with children appended to some nodes without crossing a power of two) -/
+def WidthsAgree (s s' : Schema) : Prop :=
+  ∀ q t i c, s.at? q = some t → t.kids[i]? = some c →
+    ∃ t' c', s'.at? q = some t' ∧ t'.kids[i]? = some c' ∧
+      keyBits (BitVec.ofNat 64 (t.cbArg i).len) = keyBits (BitVec.ofNat 64 (t'.cbArg i).len)
+
+theorem widthsAgree_kid (s s' c c' : Schema) (i : Nat) (h : WidthsAgree s s') (hk : s.kids[i]? = some c)
+    (hk' : s'.kids[i]? = some c') : WidthsAgree c c' := by
+  intro q t j d hq hd
+  obtain ⟨t', d', h1, h2, h3⟩ := h (i :: q) t j d (by rw [at?_cons, hk]; exact hq) hd
+  rw [at?_cons, hk'] at h1
+  exact ⟨t', d', h1, h2, h3⟩
+
+/-- **Appending children without changing a level's bit width leaves the packed keys of all
+previously existing nodes unchanged.** -/
+theorem append_stable : ∀ (p : List Nat) (s s' t : Schema), WidthsAgree s s' → s.at? p = some t →
+    packFields s p = packFields s' p := by
+  intro p
+  induction p with
+  | nil => intro s s' t _ _; rfl
+  | cons i p ih =>
+    intro s s' t h ht
+    rw [at?_cons] at ht
+    cases hk : s.kids[i]? with
+    | none => simp [hk] at ht
+    | some c =>
+      simp only [hk] at ht
+      obtain ⟨t', c', h1, h2, h3⟩ := h [] s i c rfl hk
+      simp only [Schema.at?, Option.some.injEq] at h1
+      subst h1
+      simp only [packFields, hk, h2, h3]
+      congr 1
+      exact ih c c' t (widthsAgree_kid s s' c c' i h hk h2) ht
+
+/-! ## non-vacuity -/
+def ex : Schema := .node (.named ["foo", "bar", "baz"]) [.leaf, .array 3 .leaf, .leaf]
+example : packOf ex [1, 2] = some 0x6800000000000000#64 := by decide +kernel
+example : ex.meta.maxBits = 4 := by decide +kernel
+example : ex.transcode (.packed 0x6800000000000000#64) (.idx [] 2 100) = (.leaf 2, .idx [1, 2] 2 100) := by
+  decide +kernel
 
 end MiniconfVerif.C09
